@@ -73,6 +73,18 @@ def one(cases, rng, tier, d, rep, dtname):
         return tn.movedim(tn.tensordot(F, dx, dims=([1], [k])), 0, k)
     Nn = list(N); Nn[k] = rows
     cases.append(Case(J("mprod", tt_tokens(x), 1, k, rows, N[k], tensor_tokens(F)), impl, chk_tt(box, mp1, dt, Rx, Nn), "mprod/single/" + tag, True))
+    # negative mode index (python convention) and, for lists, a negative entry / a repeated mode (applied one after the other)
+    kn = k - d
+    box, impl = boxed(lambda x=x, F=F, kn=kn: x.mprod(F, kn))
+    cases.append(Case(J("mprod", tt_tokens(x), 1, k, rows, N[k], tensor_tokens(F)), impl, chk_tt(box, mp1, dt, Rx, Nn), "mprod/single-negative/" + tag, True))
+    F2 = int_tensor(rng, [rng.randint(1, 3), rows], dt)
+    box, impl = boxed(lambda x=x, F=F, F2=F2, k=k, kn=kn: x.mprod([F, F2], [k, kn] if d > 1 else [k, k]))
+
+    def mp2():
+        return tn.movedim(tn.tensordot(F2 @ F, dx, dims=([1], [k])), 0, k)
+    Nn2 = list(N); Nn2[k] = F2.shape[0]
+    F21 = F2 @ F
+    cases.append(Case(J("mprod", tt_tokens(x), 1, k, F21.shape[0], N[k], tensor_tokens(F21)), impl, chk_tt(box, mp2, dt, Rx, Nn2), "mprod/list-repeated-mode/" + tag, True))
     if d >= 2:
         ks = sorted(rng.sample(range(d), rng.randint(2, min(d, 3))))
         Fs = [int_tensor(rng, [rng.randint(1, 3), N[kk]], dt) for kk in ks]
